@@ -25,17 +25,6 @@ Definition pin_nets_of (C : Circuit) (p : string * bbdef) : list pin_row :=
    ((λ q : string, (pin p.1 q, (∅ : gset string), fanout (c_g C) (pin p.1 q))) <$> elements (bb_out p.2)))%list.
 Definition pin_nets (C : Circuit) : list pin_row := mbind (M := list) (pin_nets_of C) (map_to_list (c_bbs C)).
 
-(* same function at every output and blackbox input pin: exhaustive over the free nodes (at most 8), with the
-   consistency certificate of evalc on both sides *)
-Definition same_function (Cf Cl : Circuit) : bool :=
-  let free := elements (free_nodes (c_g Cf)) in
-  let obs := elements (endpoints (c_g Cf)) in
-  bool_decide (free_nodes (c_g Cf) = free_nodes (c_g Cl)) &&
-  (if (length free <=? 8)%nat && acyclicb (c_g Cf) && acyclicb (c_g Cl) then
-     forallb (λ a, let vf := evalc (c_g Cf) a in let vl := evalc (c_g Cl) a in
-                   consistentb (c_g Cf) vf && consistentb (c_g Cl) vl && eq_on obs vf vl) (all_vals free)
-   else true).
-
 (* the property, judged on what the two readers returned *)
 Definition holds (k : case) : bool :=
   match k with
